@@ -11,7 +11,7 @@ COMMON_NOTE = ("Trusted: Coq 8.16.1 kernel incl. vm_compute (no native_compute);
                "the RP's policy containers reused after in-place edits, clones of every result, parameters newly added to entry points (DESIGN 2.9). ")
 CLAIMS = {
  "C14": dict(
-   text="Machine-checked theorems (all byte strings, any length, any amount of '=' padding): round trip, alphabet, injectivity, the length law ceil(4n/3) of every length class, decoder output always bytes, and the decoder's leniency (foreign characters skipped anywhere, both alphabets accepted - decoding is many-to-one, so canonicity rests on the encoder), over an exact Gallina model of CPython's lenient base64 decoder; the model is tied to the code by exhaustive (length 0-2) and seeded differential execution.",
+   text="Machine-checked theorems (all byte strings, any length, any amount of '=' padding): round trip, alphabet, injectivity, the length law ceil(4n/3) of every length class, decoder output always bytes, and the decoder's leniency (foreign characters skipped anywhere, both alphabets accepted - decoding is many-to-one, so canonicity rests on the encoder; both verifiers accept only when id is the canonical text of rawId and refuse an id that merely decodes to it), over an exact Gallina model of CPython's lenient base64 decoder; the model is tied to the code by exhaustive (length 0-2) and seeded differential execution.",
    note="CPython's base64/binascii are modelled exactly and validated differentially, not verified. No axioms (Print Assumptions: closed).",
    technique="Coq proof by induction in steps of three bytes + lia; correspondence check via extracted OCaml model", ref="3/C14"),
  "C01": dict(
